@@ -166,6 +166,8 @@ pub struct Exec {
     /// census support: when a position with this key fingerprint is recorded, remember its FEN
     pub watch_key: Option<(u64, u64)>,
     pub watch_hit: Option<String>,
+    /// a few positions monitored earlier in this run (revisited later: no answer may depend on call history)
+    pub recent: Vec<(Board, Pos)>,
 }
 
 pub fn outcome_from_lib(r: GameResult) -> Outcome {
@@ -343,6 +345,7 @@ impl Exec {
             roots: vec![],
             watch_key: None,
             watch_hit: None,
+            recent: vec![],
         }
     }
 
@@ -713,6 +716,34 @@ impl Exec {
         }
         if self.on(12) && path != "engine" {
             self.san_all(b, p)?;
+        }
+        if (self.on(1) || self.on(4)) && p.ep_pawn_beside() {
+            // call-history independence: the position and its en-passant twin queried alternately
+            guard(|| twin_probe(b, p, self.on(1), self.on(4)))
+                .map_err(|e| viol(if self.on(1) { "C01" } else { "C04" }, "twin_probe/panic", format!("{} in {}", e, p.fen())))??;
+            self.stats.cnt("reach.ep_twin_probed");
+        }
+        if self.on(1) || self.on(4) {
+            // revisit an earlier position of this run: its answers must be what they were
+            if !self.recent.is_empty() {
+                let (ob, op) = self.recent[(self.cur_n as usize) % self.recent.len()].clone();
+                if self.on(1) {
+                    c01_movegen(&ob, &op)?;
+                    for m in op.legal_moves().iter().take(3) {
+                        c01_legal_query(&ob, &op, *m)?;
+                    }
+                }
+                if self.on(4) {
+                    c04_status(&ob, &op)?;
+                }
+                self.stats.cnt("reach.earlier_position_revisited");
+            }
+            if self.recent.len() < 16 {
+                self.recent.push((*b, p.clone()));
+            } else {
+                let i = (self.cur_n as usize) % 16;
+                self.recent[i] = (*b, p.clone());
+            }
         }
         Ok(())
     }
